@@ -110,6 +110,33 @@ theorem grammar_same_client_server (s : List Char) :
     rw [parseBytes_ne_noMatch]
     simp [List.any_eq_true]
 
+/-- **The third party**: the `hailctl config` checks of `query/batch_{driver,worker}_cores` / `…_memory` accept exactly
+what the client parsers accept (memory: plus the three worker-type words) — so client parser, server validator and
+`hailctl config` agree on every string. -/
+theorem grammar_same_hailctl_config (s : List Char) :
+    (configAcceptsCores s = true ↔ parseCpu s ≠ .noMatch) ∧
+    (configAcceptsMemory s = true ↔ (parseMemory s ≠ .noMatch ∨ ∃ w ∈ ["standard", "lowmem", "highmem"], w.toList = s)) ∧
+    (configAcceptsCores s = serverAcceptsCpu s) ∧
+    (memoryTypes = ["lowmem", "standard", "highmem"] → configAcceptsMemory s = serverAcceptsMemory s) := by
+  refine ⟨?_, ?_, rfl, ?_⟩
+  · unfold configAcceptsCores parseCpu
+    cases matchSize cpuSuffixes cpuTrailingB s <;> simp
+  · unfold configAcceptsMemory parseMemory
+    rw [parseBytes_ne_noMatch]
+    simp
+  · intro h
+    unfold configAcceptsMemory serverAcceptsMemory
+    rw [h]
+    simp only [List.any_cons, List.any_nil, Bool.or_false]
+    generalize (matchSize memorySuffixes memoryTrailingB s).isSome = x
+    generalize ("standard".toList == s) = a
+    generalize ("lowmem".toList == s) = b
+    generalize ("highmem".toList == s) = c
+    cases x <;> cases a <;> cases b <;> cases c <;> rfl
+
+/-- the words `hailctl config` accepts for memory are the server's `memory_types` (extracted table) -/
+theorem memory_words_same : memoryTypes = ["lowmem", "standard", "highmem"] := by decide
+
 /-! ## exact values -/
 
 /-- the number of cores a cpu literal denotes: `m` means thousandths -/
@@ -273,6 +300,9 @@ example : parseCpu "+.5".toList = .value 500 := by decide
 example : parseCpu "1500m".toList = .value 1500 := by decide
 example : parseCpu "1.5m".toList = .value 1 := by decide
 example : parseCpu "1.".toList = .noMatch := by decide
+example : configAcceptsCores "4cores".toList = false := by decide       -- prefix-valid + junk: rejected by all three
+example : configAcceptsMemory "4GiB RAM".toList = false := by decide
+example : configAcceptsMemory "highmem".toList = true := by decide
 example : parseCpu "1mB".toList = .noMatch := by decide
 example : parseCpu "".toList = .noMatch := by decide
 example : parseMemory "0.0001".toList = .value 1 := by decide          -- rounded up
